@@ -80,6 +80,10 @@ pub struct SimService {
     pub log: Rc<RefCell<Vec<Handled>>>,
     /// Extra random suspension of every call (buggify `service_suspends`).
     pub suspends: bool,
+    /// Called at the start of every `handle` with (cid, seq, event number): lets a scenario act
+    /// while the server is in the middle of its loop (the server does not return to the executor
+    /// between two calls it can serve without waiting).
+    pub on_handle: Option<Rc<dyn Fn(u32, u32, u64)>>,
 }
 
 pub struct SvcStream {
@@ -140,6 +144,11 @@ impl Service for SimService {
             w.ev("svc.handle", cid as u64, seq as u64);
             let at = w.seq;
             self.log.borrow_mut().push(Handled { cid, seq, at, oneway: call.oneway(), more: call.more() });
+            if let Some(f) = self.on_handle.clone() {
+                drop(w);
+                f(cid, seq, at);
+                w = self.world.borrow_mut();
+            }
             if self.suspends && w.tape.chance(1, 4) {
                 w.stat("buggify.service_suspends");
                 w.nontrivial = true;
@@ -498,7 +507,7 @@ pub fn run_server_with(world: &World, suspends: bool, reals: Vec<RealClient>) ->
     let log: Rc<RefCell<Vec<Handled>>> = Rc::new(RefCell::new(Vec::new()));
     let finished = Rc::new(RefCell::new(false));
     {
-        let service = SimService { world: world.clone(), log: log.clone(), suspends };
+        let service = SimService { world: world.clone(), log: log.clone(), suspends, on_handle: None };
         let server = Server::new(SimListener { world: world.clone() }, service);
         let mut ex = Exec::new();
         let fin = finished.clone();
